@@ -166,6 +166,10 @@ func (c *Core) dispatching(bp BundleDescriptor) {
 			"routing": c.routing,
 		}).Info("Routing Algorithm has not allowed dispatching of the bundle")
 
+		// Keep the bundle marked for a retry. Otherwise the next synchronisation of its constraints, e.g., when a
+		// duplicate is received, clears the pending flag and the bundle is never dispatched again.
+		c.bundleContraindicated(bp)
+
 		return
 	}
 
